@@ -9,6 +9,7 @@ import re
 import numpy as np
 
 from harness import common as C
+from harness import kernelobj_c12 as H
 
 ANCHORS = {"src/skmatter/preprocessing/_data.py": [
     "KernelNormalizer.__init__", "KernelNormalizer.fit", "KernelNormalizer.transform",
@@ -18,23 +19,44 @@ ANCHORS = {"src/skmatter/preprocessing/_data.py": [
 MAX_REPORTS = 8
 TOL = 1e-10        # kernel route: model on the same K as the implementation
 TOLF = 1e-8        # feature route: model on Phi, Psi (K was rounded once more, centring cancels)
+TOLP = 1e-8        # spectral route: pinv recomputed by the model from eigh(Kmm) (eps * condition number)
 EPS_PENROSE = 1e-7
-RCOND = 1e-12
-WKINDS = ["none", "none", "uniform", "random", "zeros", "integer"]
+RCOND = 1e-12      # the default of SparseKernelCenterer
+RCONDS = [None, None, 1e-12, 1e-15, 1e-10, 1e-7, 1e-5, 1e-3, 1e-2]   # None: constructor default
+WKINDS = ["none", "none", "uniform", "random", "zeros", "integer", "nearuniform"]
 
 
 # ------------------------------------------------------------------------------ generation
-def gen_feats(rng, n, p, offset):
+def gen_feats(rng, n, p, offset, mag=1.0):
     mu = [offset * rng.uniform(-1, 1) for _ in range(p)]
     sc = [10 ** rng.uniform(-1, 1) for _ in range(p)]
-    return [[mu[j] + sc[j] * rng.gauss(0, 1) for j in range(p)] for _ in range(n)]
+    return [[mag * (mu[j] + sc[j] * rng.gauss(0, 1)) for j in range(p)] for _ in range(n)]
+
+
+def gen_mag(rng):
+    """overall magnitude of the features (units): kernels scale with its square, 1e-16 .. 1e6"""
+    return 1.0 if rng.random() < 0.5 else 10 ** rng.uniform(-8, 3)
 
 
 def gen_w(rng, n, kind):
+    """sample weights of the given kind; the weights are normalised internally by both classes, so
+    their overall magnitude (2^-60 .. 2^40 here) is inside the quantifier as well"""
+    w = gen_w_unit(rng, n, kind)
+    if w is not None and rng.random() < 0.4:
+        f = 2.0 ** rng.randint(-60, 40)        # a power of two: the normalised weights are bit-identical
+        w = [x * f for x in w]
+    return w
+
+
+def gen_w_unit(rng, n, kind):
     if kind == "none":
         return None
     if kind == "uniform":
         return [rng.choice([1.0, 0.5, 3.0, 0.1])] * n
+    if kind == "nearuniform":
+        # relative spread 1e-7 .. 1e-3 around a common value: NOT uniform
+        b, sp = rng.choice([1.0, 0.5, 3.0, 0.1]), 10 ** rng.uniform(-7, -3)
+        return [b * (1 + sp * rng.uniform(-1, 1)) for _ in range(n)]
     if kind == "random":
         return [rng.uniform(0.05, 2.0) for _ in range(n)]
     if kind == "zeros":
@@ -55,22 +77,33 @@ def gen_w(rng, n, kind):
 
 
 def gen_case(rng, quick):
+    r = rng.random()
+    if r < 0.10:
+        return H.gen_hist(rng, quick, sparse=False)
+    if r < 0.20:
+        return H.gen_hist(rng, quick, sparse=True)
+    return gen_single(rng, quick)
+
+
+def gen_single(rng, quick):
     nmax, pmax, kmax = (7, 4, 5) if quick else (14, 6, 8)
     n = rng.randint(2, nmax) if rng.random() < 0.95 else 1
     p = rng.randint(1, pmax)
     k = rng.randint(1, kmax)
     offset = rng.choice([0.0, 1.0, 5.0, 20.0])
-    Phi = gen_feats(rng, n, p, offset)
-    Psi = gen_feats(rng, k, p, offset) if rng.random() < 0.8 else [list(Phi[rng.randrange(n)]) for _ in range(k)]
+    mag = gen_mag(rng)
+    Phi = gen_feats(rng, n, p, offset, mag)
+    Psi = gen_feats(rng, k, p, offset, mag) if rng.random() < 0.8 else [list(Phi[rng.randrange(n)]) for _ in range(k)]
     wkind = rng.choice(WKINDS)
-    case = dict(Phi=Phi, Psi=Psi, w=gen_w(rng, n, wkind), wkind=wkind,
-                with_center=rng.random() < 0.7, with_trace=rng.random() < 0.7)
+    case = dict(Phi=Phi, Psi=Psi, w=gen_w(rng, n, wkind), wkind=wkind, mag=mag,
+                with_center=rng.random() < 0.7, with_trace=rng.random() < 0.7,
+                pow2=rng.choice([-1, 1]) * rng.randint(1, 50))
     r = rng.random()
     if r < 0.5:
         case["kind"] = "kn"
         case["kernel"] = "linear" if rng.random() < 0.8 else "rbf"
         if case["kernel"] == "rbf":
-            case["gamma"] = 10 ** rng.uniform(-2, 0) / (1 + offset)
+            case["gamma"] = 10 ** rng.uniform(-2, 0) / (1 + offset) / (mag * mag)
     else:
         case["kind"] = "sparse"
         m = rng.randint(1, nmax)
@@ -78,8 +111,9 @@ def gen_case(rng, quick):
             idx = rng.sample(range(n), m)
             A = [list(Phi[i]) for i in idx]       # active set: a subset of the samples
         else:
-            A = gen_feats(rng, m, p, offset)
+            A = gen_feats(rng, m, p, offset, mag)
         case["A"] = A
+        case["rcond"] = rng.choice(RCONDS)
     return case
 
 
@@ -100,7 +134,29 @@ def kernels(case):
 
 
 # ------------------------------------------------------------------------------ implementation
+def eff_rcond(rc):
+    return RCOND if rc is None else rc
+
+
+def rc_kw(rc):
+    return {} if rc is None else dict(rcond=rc)
+
+
+def sym_eigh(Kmm):
+    """numpy's spectral decomposition of the (symmetrised) active kernel: eigenvalues, eigenvectors"""
+    Kmm = np.asarray(Kmm, dtype=float)
+    ev, U = np.linalg.eigh((Kmm + Kmm.T) / 2)
+    return ev, U
+
+
+def _same(a, b):
+    """bit-identical (NaN = NaN)"""
+    return np.array_equal(np.asarray(a, dtype=float), np.asarray(b, dtype=float), equal_nan=True)
+
+
 def run_impl(case):
+    if case["kind"] in ("knhist", "skhist"):
+        return H.run_impl(case)
     from skmatter.preprocessing import KernelNormalizer, SparseKernelCenterer
     w = None if case["w"] is None else np.array(case["w"], dtype=float)
     flags = dict(with_center=case["with_center"], with_trace=case["with_trace"])
@@ -114,17 +170,50 @@ def run_impl(case):
                            all=float(kn.K_fit_all_), scale=float(kn.scale_),
                            TK=kn.transform(K.copy()).tolist(), TKt=kn.transform(Kt.copy()).tolist(),
                            FT=KernelNormalizer(**flags).fit_transform(K.copy(), sample_weight=w).tolist())
+                if w is not None and case.get("pow2"):
+                    kn2 = KernelNormalizer(**flags).fit(K.copy(), sample_weight=w * 2.0 ** case["pow2"])
+                    rec["pow2_same"] = bool(
+                        all(_same(getattr(kn, a), getattr(kn2, a)) for a in ("K_fit_rows_", "K_fit_all_", "scale_"))
+                        and _same(kn.transform(Kt.copy()), kn2.transform(Kt.copy())))
                 return rec
             Knm, Kmm, Kt = kernels(case)
-            sk = SparseKernelCenterer(rcond=RCOND, **flags).fit(Knm.copy(), Kmm.copy(), sample_weight=w)
-            P = np.linalg.pinv(Kmm, RCOND)       # the hint: same call as the implementation makes
+            rc, kw = eff_rcond(case.get("rcond")), rc_kw(case.get("rcond"))
+            sk = SparseKernelCenterer(**kw, **flags).fit(Knm.copy(), Kmm.copy(), sample_weight=w)
+            P = np.linalg.pinv(Kmm, rc)          # hint 1: what C12 calls the pseudo-inverse (relative cut-off)
+            ev, U = sym_eigh(Kmm)                # hint 2: spectral data, the model applies the cut-off itself
+            same = None
+            if w is not None and case.get("pow2"):
+                sk2 = SparseKernelCenterer(**kw, **flags).fit(Knm.copy(), Kmm.copy(),
+                                                              sample_weight=w * 2.0 ** case["pow2"])
+                same = bool(_same(sk.K_fit_rows_, sk2.K_fit_rows_) and _same(sk.scale_, sk2.scale_))
             return dict(Knm=Knm.tolist(), Kmm=Kmm.tolist(), Kt=Kt.tolist(), P=P.tolist(),
+                        U=U.tolist(), ev=ev.tolist(), pow2_same=same,
                         rows=np.asarray(sk.K_fit_rows_, dtype=float).tolist(), scale=float(sk.scale_),
                         T=sk.transform(Knm.copy()).tolist(), Tt=sk.transform(Kt.copy()).tolist(),
-                        FT=SparseKernelCenterer(rcond=RCOND, **flags).fit_transform(
+                        FT=SparseKernelCenterer(**kw, **flags).fit_transform(
                             Knm.copy(), Kmm.copy(), sample_weight=w).tolist())
     except Exception as e:  # noqa
         return dict(error=type(e).__name__, error_msg=str(e))
+
+
+def ref_scale(case, rec):
+    """scale_ as the property defines it, computed directly (binary64) from the inputs: the gates
+    refer to THIS value, never to what the implementation returned"""
+    n = len(case["Phi"])
+    w = np.ones(n) if case["w"] is None else np.array(case["w"], dtype=float)
+    w = w / w.sum()
+    if not case["with_trace"]:
+        return 1.0
+    with np.errstate(all="ignore"):
+        if case["kind"] == "kn":
+            K = np.array(rec["K"], dtype=float)
+            if case["with_center"]:
+                rows = w @ K
+                K = K - rows - (K @ w)[:, None] + rows @ w
+            return float(np.trace(K) / n)
+        Knm = np.array(rec["Knm"], dtype=float)
+        Kc = Knm - (w @ Knm) if case["with_center"] else Knm
+        return float(np.sqrt(np.trace(Kc @ np.array(rec["P"], dtype=float) @ Kc.T) / n))
 
 
 def gate(case, rec):
@@ -132,7 +221,9 @@ def gate(case, rec):
     the pinv cut-off, very ill-conditioned retained part"""
     if "error" in rec:
         return None
-    s = rec["scale"]
+    if case["kind"] in ("knhist", "skhist"):
+        return H.gate(case, rec)
+    s = ref_scale(case, rec)
     if not np.isfinite(s):
         return "scale_not_finite"
     if case["kind"] == "kn":
@@ -140,22 +231,42 @@ def gate(case, rec):
         if case["with_trace"] and abs(s) < 1e-6 * kmax:
             return "scale_vanishes"
         return None
-    Kmm = np.array(rec["Kmm"])
-    sv = np.linalg.svd(Kmm, compute_uv=False)
-    if sv[0] == 0:
-        return "Kmm_zero"
-    rel = sv / sv[0]
-    if np.any((rel > 1e-15) & (rel < 1e-7) & (np.abs(np.log10(rel / RCOND)) < 4)):
-        return "singular_value_near_cutoff"
-    kept = rel[rel > RCOND]
-    if kept.min() < 1e-6:
-        return "Kmm_ill_conditioned"
+    g = gate_kmm(rec["Kmm"], eff_rcond(case.get("rcond")))
+    if g:
+        return g
     if case["with_trace"]:
         kmax = float(np.max(np.abs(rec["Knm"])))
         pm = float(np.max(np.abs(rec["P"])))
         if s * s < 1e-6 * kmax * kmax * pm or s == 0:
             return "scale_vanishes"
     return None
+
+
+def gate_kmm(Kmm, rc):
+    """the pseudo-inverse of this Kmm at this rcond is well determined: no singular value near
+    the cut-off, retained part of condition number <= 1e6"""
+    sv = np.linalg.svd(np.array(Kmm, dtype=float), compute_uv=False)
+    if sv[0] == 0 or not np.all(np.isfinite(sv)):
+        return "Kmm_zero"
+    rel = sv / sv[0]
+    # a singular value of relative size r is known to about 1e-16 / r: for cut-offs >= 1e-10 a factor
+    # 4 between every singular value and the cut-off makes the keep/discard decision robust; below
+    # that the singular values are rounding noise themselves and three decades are required
+    f = 4.0 if rc >= 1e-10 else 1e3
+    if np.any((rel > rc / f) & (rel < rc * f)):
+        return "singular_value_near_cutoff"
+    kept = rel[rel > rc]
+    if kept.min() < 1e-6:
+        return "Kmm_ill_conditioned"
+    return None
+
+
+def truncates(Kmm, rc):
+    """a singular value that is not rounding noise is discarded: pinv(Kmm, rcond) is then the
+    pseudo-inverse of the truncated matrix, not of Kmm (no Penrose check against Kmm)"""
+    sv = np.linalg.svd(np.array(Kmm, dtype=float), compute_uv=False)
+    rel = sv / sv[0]
+    return bool(np.any((rel <= rc) & (rel > 1e-13)))
 
 
 def penrose_residuals(rec):
@@ -174,13 +285,22 @@ def oracle(case, rec):
     None or a message."""
     if "error" in rec:
         return "raised %s: %s" % (rec["error"], rec.get("error_msg"))
+    if case["kind"] in ("knhist", "skhist"):
+        return H.oracle(case, rec)
     L = np.longdouble
     Phi = np.array(case["Phi"], dtype=L)
     Psi = np.array(case["Psi"], dtype=L)
     n = Phi.shape[0]
     w = np.ones(n, dtype=L) if case["w"] is None else np.array(case["w"], dtype=L)
     w = w / w.sum()
+    if rec.get("pow2_same") is False:
+        return ("fit with the sample weights multiplied by 2^%d stores different attributes / transforms differently "
+                "(the normalised weights are bit-identical): the result depends on the overall magnitude of the weights"
+                % case["pow2"])
     s = rec["scale"]
+    sr = ref_scale(case, rec)
+    if not np.isfinite(s) or s == 0:
+        return "scale_ is %r; the scale the property defines is %r" % (s, sr)
     if case["kind"] == "kn":
         K = np.array(rec["K"], dtype=L)
         Kt = np.array(rec["Kt"], dtype=L)
@@ -222,7 +342,10 @@ def oracle(case, rec):
     Tt = np.array(rec["Tt"], dtype=L)
     Kt = np.array(rec["Kt"], dtype=L)
     pm = float(np.max(np.abs(P)))
-    cond = kmax * kmax * pm / (s * s) if case["with_trace"] else 0.0
+    cond = kmax * kmax * pm / (sr * sr) if case["with_trace"] else 0.0
+    if abs(s - sr) > 1e-7 * abs(sr) * (1 + cond):
+        return ("scale_ is %r; sqrt(trace(Knm_centered pinv(Kmm, rcond) Knm_centered^T) / n) with the "
+                "cut-off rcond * largest singular value is %r" % (s, sr))
     if case["with_center"]:
         cm = w @ T
         if np.any(np.abs(cm) > 1e-8 * kmax / abs(s) * (1 + cond)):
@@ -255,6 +378,8 @@ def colv(v):
 
 
 def case_coq(case, rec, diag=False):
+    if case["kind"] in ("knhist", "skhist"):
+        return H.case_coq(case, rec, TOL, TOLP, EPS_PENROSE, diag=diag)
     n, p, k = len(case["Phi"]), len(case["Phi"][0]), len(case["Psi"])
     w = "[]" if case["w"] is None else colv(case["w"])
     if case["kind"] == "kn":
@@ -266,18 +391,25 @@ def case_coq(case, rec, diag=False):
             C.fmat([rec["rows"]]), C.fmat([[rec["all"]]]), C.fmat([[rec["scale"]]]),
             C.fmat(rec["TK"]), C.fmat(rec["TKt"]), C.fmat(rec["FT"]))
     m = len(case["A"])
-    return "%s %s %d %d %d %s %s %s %s %s %s %s %s %s %s %s %s" % (
-        "sk_case_checks" if diag else "sk_case_ok", cfg_coq(case), n, m, k, C.fl(TOL), C.fl(EPS_PENROSE),
-        C.fmat(rec["Knm"]), w, C.fmat(rec["Kmm"]), C.fmat(rec["P"]), C.fmat(rec["Kt"]),
+    rc = eff_rcond(case.get("rcond"))
+    pen = not truncates(rec["Kmm"], rc)
+    return "%s %s %d %d %d %s %s %s %s %s %s %s %s %s %s %s %s %s %s %s %s %s" % (
+        "sc_case_checks" if diag else "sc_case_ok", cfg_coq(case), n, m, k, C.fl(TOL), C.fl(TOLP), C.fl(EPS_PENROSE),
+        C.fl(rc), "true" if pen else "false",
+        C.fmat(rec["Knm"]), w, C.fmat(rec["Kmm"]), C.fmat(rec["P"]), C.fmat(rec["U"]), C.fmat([rec["ev"]]),
+        C.fmat(rec["Kt"]),
         C.fmat([rec["rows"]]), C.fmat([[rec["scale"]]]), C.fmat(rec["T"]), C.fmat(rec["Tt"]), C.fmat(rec["FT"]))
 
 
 HEAD = (C.SHARD_HEAD + "From Coq Require Import List PrimFloat.\nImport ListNotations.\n"
-        "From Verif Require Import ListX MExp KernelNorm.\nOpen Scope float_scope.\n")
+        "From Verif Require Import ListX MExp KernelNorm KernelCut KernelObj.\nOpen Scope float_scope.\n")
 KN_NAMES = ["K_fit_rows_", "K_fit_all_", "scale_", "transform(K)", "transform(K_test)", "fit_transform(K)",
             "feature route vs transform(K)", "feature route vs transform(K_test)"]
 SK_NAMES = ["Penrose residuals of the pinv hint", "K_fit_rows_", "scale_", "transform(Knm)",
-            "transform(K_test)", "fit_transform"]
+            "transform(K_test)", "fit_transform", "residuals of the eigh hint",
+            "pinv computed by the model (cut-off rcond * max|eigenvalue|) vs numpy's pinv",
+            "scale_ with the model's pinv", "transform(Knm) with the model's pinv",
+            "transform(K_test) with the model's pinv"]
 
 
 def shard(items):
@@ -291,6 +423,9 @@ def diag(ctx, case, rec):
     if not mm:
         return "diagnosis unavailable"
     vals = [x.strip() == "true" for x in mm.group(1).split(";")]
+    if case["kind"] in ("knhist", "skhist"):
+        return "history %s; model and implementation differ at step(s) %s" % (
+            H.describe(case), [i for i, v in enumerate(vals) if not v])
     names = KN_NAMES if case["kind"] == "kn" else SK_NAMES
     return "differs in: " + ", ".join(nm for nm, v in zip(names, vals) if not v)
 
@@ -298,10 +433,13 @@ def diag(ctx, case, rec):
 # ------------------------------------------------------------------------------ run
 def run(ctx):
     po = C.proof_obligations(ctx.prop)
-    ncases = 3000 if ctx.quick else 24000
+    ncases = 4000 if ctx.quick else 20000
     cases, recs = [], []
     stats = dict(kinds={}, flags={}, wkinds={}, shapes={}, gated={}, errors=0, rank_deficient_Kmm=0,
-                 penrose_residual_max=[0.0, 0.0, 0.0, 0.0])
+                 penrose_residual_max=[0.0, 0.0, 0.0, 0.0], feature_magnitude={}, rcond={},
+                 pinv_truncates_real_modes=0, eigenvalue_between_relative_and_absolute_cutoff=0,
+                 histories=dict(steps=0, refits=0, rejected_fits=0, weighted_then_unweighted=0, set_params=0,
+                                rejected_transforms=0, raised_in_impl=0))
     for _ in range(ncases):
         c = gen_case(ctx.rng, ctx.quick)
         r = run_impl(c)
@@ -309,12 +447,34 @@ def run(ctx):
         recs.append(r)
         kk = c["kind"] + ("/" + c["kernel"] if c["kind"] == "kn" else "")
         stats["kinds"][kk] = stats["kinds"].get(kk, 0) + 1
+        if c["mag"] != 1.0:
+            mk = "1e%+03d" % int(np.floor(np.log10(c["mag"])))
+            stats["feature_magnitude"][mk] = stats["feature_magnitude"].get(mk, 0) + 1
+        if c["kind"] in ("knhist", "skhist"):
+            hs = stats["histories"]
+            hs["steps"] += len(c["steps"])
+            fits = [st for st in c["steps"] if st["op"] in ("fit", "fit_transform")]
+            good = [st for st in fits if st["bad"] is None]
+            hs["refits"] += max(0, len(good) - 1)
+            hs["rejected_fits"] += len(fits) - len(good)
+            hs["weighted_then_unweighted"] += sum(1 for a, b in zip(good, good[1:])
+                                                  if a["w"] is not None and b["w"] is None)
+            hs["set_params"] += sum(1 for st in c["steps"] if st["op"] == "set")
+            hs["rejected_transforms"] += sum(1 for st in c["steps"] if st["op"] == "transform"
+                                             and (st.get("unfitted") or st.get("badcols")))
+            if "steps" in r:
+                hs["raised_in_impl"] += sum(1 for x in r["steps"] if "raised" in x)
+            stats["errors"] += "error" in r
+            continue
         fk = "center=%d,trace=%d" % (c["with_center"], c["with_trace"])
         stats["flags"][fk] = stats["flags"].get(fk, 0) + 1
         stats["wkinds"][c["wkind"]] = stats["wkinds"].get(c["wkind"], 0) + 1
         sk = "n%d,p%d,k%d" % (len(c["Phi"]), len(c["Phi"][0]), len(c["Psi"])) + (
             ",m%d" % len(c["A"]) if c["kind"] == "sparse" else "")
         stats["shapes"][sk] = stats["shapes"].get(sk, 0) + 1
+        if c["kind"] == "sparse":
+            rk = "default" if c["rcond"] is None else "%g" % c["rcond"]
+            stats["rcond"][rk] = stats["rcond"].get(rk, 0) + 1
         stats["errors"] += "error" in r
     gates = [gate(c, r) for c, r in zip(cases, recs)]
     for g in gates:
@@ -323,10 +483,15 @@ def run(ctx):
     idx = [i for i in range(len(cases)) if not gates[i] and "error" not in recs[i]]
     for i in idx:
         if cases[i]["kind"] == "sparse":
-            res = penrose_residuals(recs[i])
-            stats["penrose_residual_max"] = [max(a, b) for a, b in zip(stats["penrose_residual_max"], res)]
+            if not truncates(recs[i]["Kmm"], eff_rcond(cases[i].get("rcond"))):
+                res = penrose_residuals(recs[i])
+                stats["penrose_residual_max"] = [max(a, b) for a, b in zip(stats["penrose_residual_max"], res)]
             A = np.array(cases[i]["A"])
             stats["rank_deficient_Kmm"] += int(np.linalg.matrix_rank(A) < A.shape[0])
+            rc = eff_rcond(cases[i].get("rcond"))
+            stats["pinv_truncates_real_modes"] += int(truncates(recs[i]["Kmm"], rc))
+            ev = np.abs(np.array(recs[i]["ev"]))
+            stats["eigenvalue_between_relative_and_absolute_cutoff"] += int(np.any((ev > rc * ev.max()) & (ev <= rc)))
     groups, shards, cur_g, cur_items, size = [], [], [], [], 0
     for i in idx:
         item = case_coq(cases[i], recs[i])
@@ -348,7 +513,8 @@ def run(ctx):
             corr_broken.append(out[-1500:])
             continue
         mismatched += [g[k] for k in lists[0]]
-    mismatched = sorted(set(mismatched) | {i for i, r in enumerate(recs) if "error" in r})
+    mismatched = sorted(set(mismatched) | {i for i, r in enumerate(recs) if "error" in r or r.get("pow2_same") is False})
+    stats["pow2_weight_factor_exact_comparisons"] = sum(1 for r in recs if r.get("pow2_same") is not None)
     n_search, reported = 0, set()
     search = range(len(cases)) if not po["ok"] else mismatched
     for i in search:
@@ -365,7 +531,7 @@ def run(ctx):
     for i in mismatched:
         if i in reported or len(ctx.violations) >= MAX_REPORTS:
             continue
-        rep = dict(case=cases[i], observed=recs[i], correspondence="kn_case_ok / sk_case_ok (Model/KernelNorm.v)",
+        rep = dict(case=cases[i], observed=recs[i], correspondence="kn_case_ok (Model/KernelNorm.v) / sc_case_ok (Model/KernelCut.v) / fkn_hist_ok, fsk_hist_ok (Model/KernelObj.v)",
                    note="model and implementation disagree beyond rtol %g but the direct oracle accepts the output; %s"
                         % (TOL, diag(ctx, cases[i], recs[i])))
         C.report_violation(ctx, "correspondence KernelNorm model vs implementation broken", rep, found_input=False)
@@ -379,21 +545,28 @@ def run(ctx):
     seen, nontrivial = set(), 0
     for i in idx:
         c = cases[i]
-        h = repr((c["kind"], c["Phi"], c["Psi"], c["w"], c["with_center"], c["with_trace"], c.get("A"), c.get("kernel")))
+        if c["kind"] in ("knhist", "skhist"):
+            h = repr((c["kind"], c["init"], c["steps"]))
+            nt = sum(1 for st in c["steps"] if st["op"] in ("fit", "fit_transform") and st["bad"] is None) >= 2
+        else:
+            h = repr((c["kind"], c["Phi"], c["Psi"], c["w"], c["with_center"], c["with_trace"], c.get("A"),
+                      c.get("kernel"), c.get("rcond")))
+            nt = len(c["Phi"]) >= 3 and (c["with_center"] or c["with_trace"])
         if h in seen:
             continue
         seen.add(h)
-        if len(c["Phi"]) >= 3 and (c["with_center"] or c["with_trace"]):
-            nontrivial += 1
+        nontrivial += int(nt)
     cur, changed = C.drift_report(ctx.prop, ANCHORS)
     cov = dict(obligations=po["obligations"], discharged=po["discharged"], checker_cmd=po["checker_cmd"],
                theorems=po["theorems"], axioms=po["axioms"],
                trusted_base=C.TRUSTED_BASE_COMMON + [
                    "binary64 comparison: entrywise tolerance %g (kernel route) / %g (feature route) relative to max|K|/|scale_|" % (TOL, TOLF),
                    "numpy.linalg.pinv is an oracle: its result enters the model as a hint whose four Penrose residuals are checked per case (<= %g relative)" % EPS_PENROSE,
+                   "numpy.linalg.eigh is an oracle: orthogonality and reconstruction residuals of its result are checked per case (<= %g relative); the model applies the cut-off rcond * max|eigenvalue| itself (spectral route, tolerance %g)" % (EPS_PENROSE, TOLP),
+                   "histories: the object model of Model/KernelObj.v with the binary64 numerics, every step compared",
                    "sklearn KernelCenterer.fit (unweighted branch) modelled by its source: column sums / n"],
                evaluations=len(cases), distinct_nontrivial=nontrivial,
-               rule="distinct (features, weights, flags, active set) with n >= 3, centring or trace scaling on, not gated",
+               rule="distinct (features, weights, flags, active set, rcond) with n >= 3, centring or trace scaling on, not gated; a history counts when it re-fits the same object at least once",
                traces_validated_against_impl=len(idx) - len([i for i in mismatched if i in set(idx)]),
                samples=[dict(case=cases[i], observed=recs[i]) for i in range(min(2, len(cases)))],
                distribution=stats, anchor_drift=changed, oracle_runs=n_search)
